@@ -340,3 +340,74 @@ Proof.
   pose proof (Edge R1 (fun x Hx => or_introl Hx)) as E1. pose proof (Edge R2 (fun x Hx => or_intror Hx)) as E2.
   split; lra.
 Qed.
+
+(* ---- the "no raster-sampled shape" conjunct of LegalList follows from legality ------------------------- *)
+(* add_gradients.py:99-100 tests `np.all(np.abs(tt/raster - 0.5 - arange)) < eps`; for corner times on the
+   raster every tt_k/raster - 1/2 - k is a half-integer, hence non-zero, np.all is True and 1 < eps is False *)
+Lemma half_integer_nonzero (m k : Z) : ~ Qabs (inject_Z m - (1 # 2) - inject_Z k) == 0.
+Proof.
+  intro H.
+  assert (E : inject_Z m - (1 # 2) - inject_Z k == 0).
+  { destruct (Qlt_le_dec (inject_Z m - (1 # 2) - inject_Z k) 0) as [N|N].
+    - rewrite Qabs_neg in H by lra. lra.
+    - rewrite Qabs_pos in H by exact N. exact H. }
+  assert (E3 : inject_Z (m - k) == 1 # 2) by (unfold Z.sub; rewrite inject_Z_plus, inject_Z_opp; lra).
+  unfold Qeq in E3. cbn [Qnum Qden inject_Z] in E3. lia.
+Qed.
+
+Lemma zip_idx_all_nonzero r : 0 < r -> forall tt k0,
+  (forall t, In t tt -> exists m : Z, t == inject_Z m * r) ->
+  forallb (fun x => negb (Qeq_bool (Qabs x) 0))
+          (map (fun kt : Z * Q => snd kt / r - (1 # 2) - inject_Z (fst kt)) (AddGrad.zip_idx k0 tt)) = true.
+Proof.
+  intro Hr. induction tt as [|t tt IH]; intros k0 H; [reflexivity|].
+  cbn [AddGrad.zip_idx map forallb fst snd]. apply andb_true_iff. split.
+  - destruct (H t (or_introl eq_refl)) as [m Hm]. apply negb_true_iff. apply Qeqb_neq.
+    assert (E : t / r - (1 # 2) - inject_Z k0 == inject_Z m - (1 # 2) - inject_Z k0) by (rewrite Hm; field; lra).
+    rewrite E. apply half_integer_nonzero.
+  - apply IH. intros x Hx. apply H. right. exact Hx.
+Qed.
+
+Lemma legal_no_arb s D L : AddGradLegal.C05Legal s D L ->
+  forallb (fun g => AddGrad.is_trap g || negb (AddGrad.is_arb s g)) L = true.
+Proof.
+  intro HL. apply forallb_forall. intros g Hg. destruct g as [t|e]; [reflexivity|]. cbn [AddGrad.is_trap orb].
+  apply negb_true_iff. unfold AddGrad.is_arb.
+  pose proof (AddGradLegal.cl_raster _ _ _ HL) as Hr. pose proof AddGradProofs.eps_pos as Hep.
+  assert (Hr0 : 0 < AddGrad.s_raster s) by lra.
+  destruct (AddGradLegal.cl_wf _ _ _ HL _ Hg) as [W _]. cbn [AddGradProofs.WF] in W.
+  destruct W as (_ & Hne & H0 & _).
+  assert (Hon : forall t, In t (AddGrad.eg_tt e) -> exists m : Z, t == inject_Z m * AddGrad.s_raster s).
+  { intros t Ht.
+    destruct (AddGrad.eg_tt e) as [|t0 tl] eqn:Et; [congruence|]. cbn [hd] in H0.
+    assert (G0 : In (AddGrad.eg_delay e + t0) (AddGrad.grad_times (AddGrad.GExt e)))
+      by (cbn [AddGrad.grad_times]; rewrite Et; left; reflexivity).
+    assert (G1 : In (AddGrad.eg_delay e + t) (AddGrad.grad_times (AddGrad.GExt e)))
+      by (cbn [AddGrad.grad_times]; rewrite Et; apply in_map; exact Ht).
+    destruct (AddGradLegal.cl_on_raster _ _ _ HL _ _ Hg G0) as [m0 E0].
+    destruct (AddGradLegal.cl_on_raster _ _ _ HL _ _ Hg G1) as [m1 E1].
+    exists (m1 - m0)%Z. unfold Z.sub. rewrite inject_Z_plus, inject_Z_opp. lra. }
+  rewrite (zip_idx_all_nonzero _ Hr0 _ 0%Z Hon). reflexivity.
+Qed.
+
+Theorem c05_legal_is_legal_list s D l : AddGradLegal.C05Legal (ag_sys s) D (map to_ag l) -> LegalList s D l.
+Proof. intro H. split; [exact H|apply (legal_no_arb _ D); exact H]. Qed.
+
+(* the final statement with C05Legal alone *)
+Corollary rotate_c16_matrix_up_to_drop_legal s D c sn axis evs out a0 a1 :
+  axes_of axis = Some (a0, a1) ->
+  (grads_on a0 evs ++ grads_on a1 evs <> [] ->
+   AddGradLegal.C05Legal (ag_sys s) D (map to_ag (grads_on a0 evs ++ grads_on a1 evs))) ->
+  rotate (add_c16 s) c sn axis evs = OK out ->
+  let r := raster s in
+  let '(R1, R2, thr) := rot_parts c sn a0 a1 evs in
+  forall t,
+    Qabs (render r a0 out t - (c * render r a0 evs t - sn * render r a1 evs t))
+      <= inject_Z (Z.of_nat (n_dropped thr (add_c16 s) R1)) * thr + AddGrad.eps /\
+    Qabs (render r a1 out t - (sn * render r a0 evs t + c * render r a1 evs t))
+      <= inject_Z (Z.of_nat (n_dropped thr (add_c16 s) R2)) * thr + AddGrad.eps.
+Proof.
+  intros Hax HL H.
+  apply (rotate_c16_matrix_up_to_drop s D c sn axis evs out a0 a1 Hax); [|exact H].
+  intro Hne. apply c05_legal_is_legal_list. exact (HL Hne).
+Qed.
